@@ -11,7 +11,7 @@ PROPS="$@"
 [ -z "$PROPS" ] && PROPS=$(/venv/bin/python -c "import json;print(json.load(open('/verif/seeded/$ID/meta.json'))['property'])")
 rc_all=0
 for p in $PROPS; do
-  out=$(cd /verif && NGOSA_REPO=$D NGOSA_EVIDENCE=$D/evidence ./check $p 2>&1); rc=$?
+  out=$(cd ${VERIF_HOME:-/verif} && NGOSA_REPO=$D NGOSA_EVIDENCE=$D/evidence ./check $p 2>&1); rc=$?
   echo "== $ID vs $p: rc=$rc"
   echo "$out" | grep -v "^\[" | sed "s#$D#<scratch>#g" | head -${SEEDCHECK_LINES:-8}
 done
